@@ -31,8 +31,10 @@ def selftest() -> None:
 
 
 def _build(rng):
-    case = progen.generate(rng, PROFILE)
-    return case
+    if rng.random() < 0.2:
+        # a generated .map configuration instead of a built-in mapping
+        return progen.generate(rng, PROFILE, rom="low", usermap=progen.random_usermap(rng))
+    return progen.generate(rng, PROFILE)
 
 
 def strategy(tier):
@@ -51,7 +53,9 @@ def compare_with_model(case, out: Outcome, label_check=True, profile_name="c03")
     """shared by C03/C08/C09/C10: returns (model result, real result, source)"""
     ir, rom, files = case["ir"], case["rom"], case.get("files") or {}
     src, inc_files, _ = render.render(ir)
-    model = refasm.assemble(ir, rom=rom, files=model_files(files))
+    model = refasm.assemble(ir, rom=rom, files=model_files(files), usermap=case.get("usermap"))
+    if case.get("usermap"):
+        out.labels.append("user-map")
     allfiles = dict(files)
     allfiles.update(inc_files)
     real = driver.assemble_mem(src, rom=rom, files=allfiles)
